@@ -26,7 +26,10 @@ EXPLANATION = (
     "burst; per layout: period == declared dimension == number of rows, and "
     "every frame lookup in sched_trx.c indexes `x % layout->period` (an index "
     "kept incrementally in a local is bounded by a finite-domain forward "
-    "analysis of that variable for every layout period); channel states are "
+    "analysis of that variable for every layout period; an index that is not a "
+    "remainder at all is bounded by interval evaluation or refuted by a witness: "
+    "concrete frame numbers with which the exact execution of the function reaches "
+    "the lookup with an index outside the table); channel states are "
     "allocated exactly for the mask bits (guard evaluated for all masks x "
     "types with C's implicit conversions, helper functions followed). "
     "l1sched_mframe_layout is "
@@ -58,6 +61,7 @@ ASSUMPTIONS = [
     "GSM_PCHAN_*_CBCH values of cstubs/host/compat.h (copied from upstream libosmocore)",
     "quick tier: the period-0 entry (GSM_PCHAN_NONE) is never handed to l1sched_configure_ts (decided by the thorough tier: value sets of all call sites)",
     "incrementally maintained lookup index: branch conditions the analysis cannot evaluate are free (both branches possible), a plain frame-number lvalue takes every residue modulo the period, and the layout a timeslot points to is not replaced between the definition of the index and the lookup",
+    "frame lookup whose index is not a remainder (witness search): every 32-bit unsigned input of the function (by-value parameter, field read through a pointer) is a TDMA frame number and takes every value 0..GSM_TDMA_HYPERFRAME-1 = 0..2715647 in every combination with the others; a by-value parameter of a static function (its callers choose the values) may decide branch conditions of the witness but never enters the index; stores through computed addresses do not alias these inputs or the function's locals; a branch condition that cannot be evaluated and was not computed from the witness is free (both branches possible)",
     "execution of mframe_schedule_set (only used when its trigger is not in one of the recognised normal forms): functions without a visible body neither queue item sets nor modify l1s.current_time, the const tables or the caller's locals; tdma_schedule_set(D, set, ..) starts the set's first burst D frames + the DSP latency after the current frame; l1s.current_time.fn < 2^32 - 2^20",
     "spec/chan_nr_tasks.json: which firmware task(s) implement the channel an RSL channel number octet denotes; bit i of the mask returned by chan_nr2mf_task_mask() runs task i (mframe_schedule() tests `tasks & (1 << i)`); the function is static and only called directly (checked), functions without a visible body do not change its locals",
     "l1sched_mframe_layout with state kept between calls: the state variables (static locals, static file-scope variables no other function of the translation unit mentions) are modified by this function only; any sequence of (config, tn) calls is possible",
@@ -1545,6 +1549,44 @@ def witness_candidates(keys, P):
     return [dict(zip(keys, c)) for c in out]
 
 
+def index_slice(tu, f, loc, idx):
+    """declaration ids of the locals / parameters of f whose value can flow into the expression idx
+    (backward closure over every definition of a local, stores to its fields included)"""
+    defs = {}
+    for n in walk(tu.body(f)):
+        k = kind(n)
+        tgt = rhs = None
+        if k == "VarDecl":
+            init = [c for c in kids(n) if "Comment" not in (kind(c) or "") and not (kind(c) or "").endswith("Attr")]
+            if init:
+                defs.setdefault(n["id"], []).append(init[0])
+            continue
+        if (k == "BinaryOperator" and n.get("opcode") == "=") or k == "CompoundAssignOperator":
+            tgt, rhs = kids(n)
+        elif k == "UnaryOperator" and n.get("opcode") in ("++", "--"):
+            tgt = kids(n)[0]
+        if tgt is None:
+            continue
+        x = strip(tgt)
+        subs = []
+        while kind(x) in ("MemberExpr", "ArraySubscriptExpr") and kids(x) and not x.get("isArrow"):
+            if kind(x) == "ArraySubscriptExpr":
+                subs.append(kids(x)[1])
+            x = strip(kids(x)[0])
+        i = Locals._ref(x) if kind(x) == "DeclRefExpr" else None
+        if i is not None and i in loc.decl:
+            defs.setdefault(i, []).extend(([rhs] if rhs is not None else []) + subs)
+    out, todo = set(), [idx]
+    while todo:
+        e = todo.pop()
+        for x in walk(e):
+            i = Locals._ref(x) if kind(x) == "DeclRefExpr" else None
+            if i is not None and i in loc.decl and i not in out:
+                out.add(i)
+                todo.extend(defs.get(i, []))
+    return out
+
+
 def lookup_witness(tu, f, g, loc, use, idx, base, periods):
     """Search for a proof that the lookup <base>->frames[idx] can leave the table: a layout period P and
     frame numbers for the function's 32-bit unsigned inputs with which the function, executed exactly
@@ -1588,12 +1630,16 @@ def lookup_witness(tu, f, g, loc, use, idx, base, periods):
     shared = {"constlike": {}, "key": {}, "period": {}, "itype": {}, "escaped": escaped, "ahead": {}}
     keys = []
     reasons = []
+    nruns = 0
     for _round in range(5):
         need = None
         found = []
         reasons = []
         for P in periods:
             for val in witness_candidates(keys, P):
+                nruns += 1
+                if nruns > 1500:
+                    return found, reasons + ["no witness among the first 1500 assignments of frame numbers to %s" % ", ".join(keys)]
                 wr = WitnessRun(tu, f, g, loc, base, P, val, use_node, idx, shared)
                 try:
                     r = wr.run()
@@ -1645,6 +1691,15 @@ def unreduced_index(L, rule, relfile, tu, fname, f, g, loc, use, idx, e, base, p
             L.ob(rule, relfile, fname, key, want, want, True, tu.line(use),
                  note="index `%s`: interval %s" % (shown, ", ".join("period %d: %d..%d" % (P, ivs[P][0], ivs[P][1]) for P in periods[:3])))
             return True, want, "bounded"
+    if f.get("storageClass") == "static":
+        # the values a static function's by-value parameters take are decided by its callers: a witness that
+        # feeds such a parameter into the index would not prove anything about the program
+        for i in sorted(index_slice(tu, f, loc, idx)):
+            d = loc.decl[i]
+            if kind(d) == "ParmVarDecl" and int_type(tu, d.get("type")) is not None:
+                raise AnalysisError("%s(): frame lookup index `%s` is not a remainder expression and depends on the parameter `%s` "
+                                    "of this static function, whose values are chosen by its callers; unclassifiable" % (
+                                        fname, shown, d.get("name")))
     found, reasons = lookup_witness(tu, f, g, loc, use, idx, base, periods)
     if found:
         txt = "; ".join("period %d: index %d%s when the function is entered with %s" % (
